@@ -1,6 +1,7 @@
-Require Import Base OasisInt OasisSpec PropList OasisWrite.
+Require Import Base OasisInt OasisSpec PropList OasisWrite OasisWriteDetect.
 Require Import Extraction ExtrOcamlBasic.
 Extraction Blacklist List String Int.
 Extraction "../ocaml/extracted/c04w.ml" write_oas_model write_oas_run cell_offsets view_w spec_oas_decode
+  write_oas_model_d view_w_d geom_d
   mkWCfg mkWLib mkWCell mkWPoly mkWPath mkWPel mkWLabel mkWRef
   Z.of_N. (* Z.of_N only so that the extracted module has the type z that ocaml/conv.ml mentions *)
